@@ -305,10 +305,14 @@ def render(td, rng=None, canonical=False, spell=None, vis="pub ", strip=False, e
             lines.insert(rng.randint(0, len(lines)) if rng.random() < 0.5 else 0, ind + a + "\n")
         return "".join(lines)
     out = []
-    if td.other_derives and not strip:
+    after = getattr(td, "derives_after", None)
+    if td.other_derives and not strip and not after:
         out.append("#[derive(%s)]\n" % ", ".join(td.other_derives))
     if not strip:
         out.append("#[derive(::educe::Educe)]\n")
+    if td.other_derives and not strip and after:
+        # std's derives in an attribute of their own AFTER the Educe derive: the derive input then shows that attribute
+        out.append("#[derive(%s)]\n" % ", ".join(td.other_derives))
     out.append(lay(ents("type", td, type_entries(td)), ""))
     for r in td.reprs:
         out.append("#[repr(%s)]\n" % r)
@@ -319,6 +323,8 @@ def render(td, rng=None, canonical=False, spell=None, vis="pub ", strip=False, e
         parts = []
         for f in v.fields:
             a = lay(ents("field", f, field_entries(td, f)), ind)
+            if not strip:
+                a += "".join("%s%s\n" % (ind, x) for x in f.sem.get("_foreign", []))
             if v.style == "named":
                 parts.append("%s%s%s%s: %s,\n" % (a, ind, vis if td.kind != "enum" else "", f.name, f.ty))
             else:
@@ -337,6 +343,8 @@ def render(td, rng=None, canonical=False, spell=None, vis="pub ", strip=False, e
         out.append("%s%s {\n" % (head, where))
         for v in td.variants:
             out.append(lay(ents("variant", v, variant_entries(td, v)), "    "))
+            if not strip:
+                out.append("".join("    %s\n" % x for x in v.sem.get("_foreign", [])))
             disc = (" = %s" % v.disc) if v.disc is not None else ""
             if v.style == "unit":
                 out.append("    %s%s,\n" % (v.name, disc))
